@@ -212,8 +212,8 @@ for _n, _p in ((0, 0), (1, 0), (1, 1), (2, 1), (2, 2), (2, 3)):
       defs={"quick": ["-DNOPT=2", "-DSHAPE_N=%d" % _n, "-DSHAPE_P=%d" % _p]},
       label="bounded(%d option(s), optional strings / nested declarations: pattern %d of none|all|alternating|first-default-only; one nesting level; strings 1 byte; any allocation may fail)" % (_n, _p),
       props=["C16", "C18", "C07", "C01", "C02"], cost=100, tiers=("quick", "thorough") if (_n, _p) != (2, 2) else ("thorough",))
-U("cfg_init", entry="h_cfg_init", func="cfg_init", cbmc=unw(6) + OOM + LEAK, remove=["cfg_dupopt_array", "cfg_init_defaults"],
-  carriers=["carriers/cfg_dupopt_array.c", "carriers/cfg_init_defaults.c"], label="proof (loop-free; callees by contract)", props=["C16", "C12", "C01", "C18", "C07", "C02"], cost=10, **SCH)
+U("cfg_init", entry="h_cfg_init", func="cfg_init", cbmc=unw(6) + OOM + LEAK, remove=["cfg_dupopt_array", "cfg_init_defaults", "cfg_free"],
+  carriers=["carriers/cfg_dupopt_array.c", "carriers/cfg_init_defaults.c", "carriers/cfg_free_strict.c"], label="proof (loop-free; callees by contract)", props=["C16", "C12", "C01", "C18", "C07", "C02"], cost=10, **SCH)
 U("cfg_free", entry="h_cfg_free", func="cfg_free, cfg_free_opt_array, cfg_free_value, cfg_free_searchpath", cbmc=unw(6) + NOOOM + LEAK,
   label="bounded(one option without values; optional fields present or absent; root or section)", props=["C07", "C08", "C02"], cost=20, **SCH)
 U("getopt_leaf", entry="h_getopt_leaf", func="cfg_getopt_leaf", cbmc=unw(6) + NOOOM, label="bounded(2 options, names and the name asked for 1..2 bytes over all bytes)", props=["C01", "C11", "C12", "C02"], cost=10, **SCH)
@@ -272,10 +272,10 @@ U("nprint_num", replay="replay/print_layout.c", entry="h_nprint_num", func="cfg_
   carriers=["carriers/print_carriers.c"], **PRT)
 U("print_opt", replay="replay/print_layout.c", entry="h_print_opt", func="cfg_opt_print_pff_indent, cfg_indent", cbmc=unw(68) + NOOOM, remove=["cfg_opt_nprint_var", "cfg_print_pff_indent"],
   carriers=["carriers/print_carriers.c"], defs={"quick": ["-DCFGV_CARRY_NPRINT", "-DCFGV_CARRY_PRINTCFG"]},
-  label="bounded(14 literal option shapes: type x list/title/annotation flags x <= 3 values; callback / annotation present or absent; depth 0..2)", props=["C19", "C05", "C15", "C02"], cost=60,
+  label="bounded(14 literal option shapes: type x list/title/annotation flags x <= 3 values; callback / annotation present or absent; depth 0..2)", props=["C19", "C05", "C15", "C16", "C02"], cost=60,
   trusted=PRTRUST, harness="harness/print.c")
 U("print_cfg", replay="replay/print_layout.c", entry="h_print_cfg", func="cfg_print_pff_indent", cbmc=unw(68) + NOOOM, remove=["cfg_opt_print_pff_indent"], carriers=["carriers/print_carriers.c"],
-  defs={"quick": ["-DCFGV_CARRY_PRINTOPT"]}, label="bounded(<= 3 options; every verdict of own / inherited filter; any depth)", props=["C19", "C02"], cost=20, trusted=PRTRUST, harness="harness/print.c")
+  defs={"quick": ["-DCFGV_CARRY_PRINTOPT"]}, label="bounded(<= 3 options; every verdict of own / inherited filter; any depth)", props=["C19", "C16", "C02"], cost=20, trusted=PRTRUST, harness="harness/print.c")
 U("print_indent", replay="replay/print_layout.c", entry="h_indent", func="cfg_indent", cbmc=unw(68) + NOOOM, label="bounded(depth 0..24)", props=["C19", "C05", "C02"], cost=10, trusted=PRTRUST,
   carriers=["carriers/print_carriers.c"], **PRT)
 U("print_hooks", replay="replay/print_layout.c", entry="h_print_hooks", func="cfg_opt_set_print_func, cfg_set_print_filter_func", cbmc=unw(68) + NOOOM, label="proof (loop-free)", props=["C19", "C02"], cost=5,
